@@ -321,13 +321,13 @@ fn layout(scn: &C11Scenario, entries: &[FsEntry]) -> Layout {
     for source in &expected {
         mirror.insert(
             source.clone(),
-            gen::normalize(&gen::mirror(
+            sim_spelling(&gen::normalize(&gen::mirror(
                 &scn.opts,
                 input_is_file,
                 out_is_dir,
                 out_is_file,
                 source,
-            )),
+            ))),
         );
     }
     Layout {
@@ -1784,6 +1784,54 @@ pub fn generate(seed: u64) -> C11Scenario {
     scn.bad_files.dedup();
     scn.unwritable = unwritable_sources(&scn, &lay);
     scn.entries = entries;
+    // the working directory itself as input (`darklua process . ../dot-out`): a plain,
+    // fault-free project is moved up so that its sources sit directly in the cwd
+    if backend == Backend::SimFs
+        && !project.input_is_file
+        && project.bundle.is_none()
+        && !project.convert
+        && project.aliases.is_empty()
+        && scn.bad_files.is_empty()
+        && scn.faults.is_empty()
+        && scn.unwritable.is_empty()
+        && separate_output(&scn.opts)
+        && rk.chance(1, 8)
+    {
+        let input_dir = gen::normalize(&project.input);
+        let old_output = scn.opts.output.as_ref().map(|o| gen::normalize(o)).unwrap_or_default();
+        let prefix = format!("{}/", input_dir);
+        let strip = |p: &str| -> String { p.strip_prefix(&prefix).unwrap_or(p).to_owned() };
+        let mut moved: Vec<FsEntry> = Vec::new();
+        let mut ok = true;
+        for e in &scn.entries {
+            if e.path == old_output || e.path.starts_with(&format!("{}/", old_output)) || e.path == input_dir {
+                continue;
+            }
+            let path = strip(&e.path);
+            if moved.iter().any(|m| m.path == path) {
+                ok = false;
+            }
+            moved.push(FsEntry { path, body: e.body.clone() });
+        }
+        if ok {
+            scn.entries = moved;
+            for meta in scn.sources.iter_mut() {
+                meta.path = strip(&meta.path);
+                for r in meta.requires.iter_mut() {
+                    *r = strip(r);
+                }
+            }
+            for m in scn.maybe_bad.iter_mut() {
+                *m = strip(m);
+            }
+            scn.opts.input = ".".to_owned();
+            scn.opts.output = Some("../dot-out".to_owned());
+            if let ConfigSource::Object(_) = scn.opts.config {
+            } else if rk.chance(1, 2) {
+                scn.opts.input = "./".to_owned();
+            }
+        }
+    }
     // both default configuration files sit in the working directory although the run has
     // its own configuration (an object, `--config <path>`, `darklua minify`): they must not
     // even be looked at
@@ -1814,6 +1862,25 @@ pub fn generate(seed: u64) -> C11Scenario {
         });
     }
     scn
+}
+
+/// The way the simulated file system names a path: relative to the simulated working
+/// directory when below it, absolute otherwise (`../dot-out/a.lua` is `/sim/dot-out/a.lua`).
+fn sim_spelling(path: &str) -> String {
+    if !path.starts_with("../") {
+        return path.to_owned();
+    }
+    let mut parts: Vec<&str> = crate::simfs::SIM_CWD.split('/').filter(|c| !c.is_empty()).collect();
+    for c in path.split('/') {
+        match c {
+            "" | "." => {}
+            ".." => {
+                parts.pop();
+            }
+            other => parts.push(other),
+        }
+    }
+    format!("/{}", parts.join("/"))
 }
 
 /// An output location that is not the input itself (no output, or the input given again
